@@ -165,6 +165,24 @@ theorem c17_other_topic_progress (s : Sys) (i : Nat) (t : Task) (ht : s.tasks[i]
   simp only [runTask, e1, hs1, e2, hs2, e3, hs3, e4, hs4, e5, if_true]
   simp [t4]
 
+/-- every stream of a connection is handled by a task of its own (regenerated from `handle_connection`) -/
+theorem streams_in_own_tasks : streamsHandledInOwnTasks = true := by decide
+
+/-- A peer that has itself queued up for a stalled topic can still open streams: whatever state the registrations of
+    the streams it opened earlier are in (waiting for the lock, waiting on a full channel), the connection's accept loop
+    takes its next stream. -/
+theorem c17_connection_keeps_accepting (s : Sys) (c : Conn) (h : c.accepted < c.streams.length) :
+    canAccept streamsHandledInOwnTasks s c = true := by
+  simp [canAccept, streams_in_own_tasks, h]
+
+/-- The defect this guards against, for the record: with `handle_stream` awaited inline, a connection whose last
+    registration waits on the stalled topic's full channel accepts nothing more. -/
+theorem c17_inline_registration_blocks_the_connection :
+    canAccept false
+      { tasks := [⟨0, .enqueue⟩, ⟨1, .wantLock⟩], lock := none, occ := fun k => if k = 0 then 101 else 0, cap := 101 }
+      { streams := [0, 1], accepted := 1 } = false := by
+  decide
+
 /-- the lock invariant holds initially (nobody holds the lock, every task is about to ask for it) -/
 theorem lockInv_init (tasks : List Task) (occ : Nat → Nat) (cap : Nat) (h : ∀ t ∈ tasks, t.pc = .wantLock) :
     LockInv { tasks := tasks, lock := none, occ := occ, cap := cap } := by
@@ -192,3 +210,6 @@ end Selium.Server
 #print axioms Selium.Server.step_at
 #print axioms Selium.Server.c17_other_topic_progress
 #print axioms Selium.Server.lockInv_init
+#print axioms Selium.Server.streams_in_own_tasks
+#print axioms Selium.Server.c17_connection_keeps_accepting
+#print axioms Selium.Server.c17_inline_registration_blocks_the_connection
